@@ -130,3 +130,16 @@ def block_word(slots_list, word):
     if not conds:
         return None
     return NOT(OR(*conds))
+
+
+def merged(cov, results):
+    """merge the path results of one execution; cov collects the condition under which that execution ran to completion
+    (inputs on which it was cut at a capacity bound, or panics, are not described by the merged value)"""
+    cov.append(z3.Or(*[pc(r) for r in results]) if results else z3.BoolVal(False))
+    return H.merged_result(results)
+
+
+def guard(cov, bad):
+    """restrict every non-panic bad condition to the inputs on which all merged executions completed"""
+    c = z3.And(*cov) if cov else z3.BoolVal(True)
+    return [(l, x) if 'panic' in l else (l, z3.And(c, x)) for l, x in bad]
